@@ -211,6 +211,10 @@ def verify_unit(vc_path, tier='quick', with_vacuity=True, rlimit=None, keep=True
         pass
     if not vr and not diags:
         raise InfraError('verus gave no result for ' + u.name)
+    if not vr:
+        # no verification took place at all (e.g. a syntax error in the assembled unit)
+        errs = [d for d in diags if d.get('level') == 'error']
+        raise InfraError('rustc/Verus front-end error in unit %s (nothing was verified):\n%s' % (u.name, '\n'.join((d.get('rendered') or d.get('message') or '') for d in errs[:5])))
     hard = [d for d in diags if d.get('level') == 'error' and d.get('code')]
     if hard:
         raise InfraError('rustc/Verus front-end error in unit %s:\n%s' % (u.name, '\n'.join((d.get('rendered') or d['message']) for d in hard[:5])))
